@@ -118,6 +118,14 @@ func appendEscapedLabel(dst []byte, label []byte) []byte {
 			case '\\':
 				dst = append(dst, "\\\\"...)
 			default:
+				// "\DDD", always three digits.
+				dst = append(dst, '\\')
+				if b < 100 {
+					dst = append(dst, '0')
+				}
+				if b < 10 {
+					dst = append(dst, '0')
+				}
 				dst = strconv.AppendUint(dst, uint64(b), 10)
 			}
 		}
